@@ -51,16 +51,41 @@ func loadSynth() (*packages.Package, error) {
 
 // synthOpts: target options of the functions of the corpus that need some.
 var synthOpts = map[string]Target{
-	"fill":      {NonNil: true},
-	"listPages": {Oracle: true, Callback: "fn"},
-	"newRec":    {Oracle: true, FreshResults: true},
+	"fill":          {NonNil: true},
+	"listPages":     {Oracle: true, Callback: "fn"},
+	"newRec":        {Oracle: true, FreshResults: true},
+	"LocalIdentity": {LocalErrorIdentity: []string{"errLimit", "errHalt"}},
+	"emit":          {Oracle: true, Effect: true},
+	"tryEmit":       {Oracle: true, Effect: true},
 }
 
 // synthOracles: the Coq terms of the oracles a corpus function depends on (in
 // the order of their Variables), computed by running the real Go oracle on the
 // arguments of the case.
 var synthOracles = map[string]func(g *gen, args []reflect.Value) []string{
-	"UsePages": func(g *gen, args []reflect.Value) []string {
+	"Effects":    eventOracles,
+	"EffectTail": eventOracles,
+	"UsePages":   pagesOracle,
+	"UseStores": func(g *gen, args []reflect.Value) []string {
+		return []string{"string", `(fun (p k : string) => if String.eqb k "" then ("", Some (Err "errors" "empty key" [])) else (String.append p (String.append ":" k), None))`}
+	},
+	"LocalIdentity":  pagesOracle,
+	"OwnedPtr":       newRecOracle,
+	"OwnedPtrPanics": newRecOracle,
+}
+
+// synthHelpers: exported functions of the corpus that are tested through their callers only.
+var synthHelpers = map[string]bool{"NewRec": true, "NewStrSet": true, "PagesOf": true}
+
+// eventOracles: the world of the corpus is the event log (a list of strings).
+func eventOracles(g *gen, args []reflect.Value) []string {
+	return []string{"(list string)",
+		"(fun (w : list string) (s : string) => List.app w [s])",
+		`(fun (w : list string) (s : string) => if String.eqb s "" then (w, 0, Some (Err "errors" "empty event" [])) else (List.app w [String.append "try:" s], Z.of_nat (List.length w) + 1, None))`}
+}
+
+func pagesOracle(g *gen, args []reflect.Value) []string {
+	{
 		pages, ferr := synth.PagesOf(int(args[0].Int()))
 		var ps []string
 		for _, p := range pages {
@@ -71,9 +96,7 @@ var synthOracles = map[string]func(g *gen, args []reflect.Value) []string{
 			e = "(Some (Err \"errors\" " + CStr(ferr.Error()) + " []))"
 		}
 		return []string{"(fun _ => ((" + CList(ps) + " : list (list string)), " + e + "))"}
-	},
-	"OwnedPtr":       newRecOracle,
-	"OwnedPtrPanics": newRecOracle,
+	}
 }
 
 func newRecOracle(g *gen, args []reflect.Value) []string {
@@ -93,7 +116,8 @@ func synthGen() (*gen, error) {
 	}
 	L := &loader{repo: "/", pkgs: map[string]*packages.Package{synthPath: p}, funcs: map[string]*funcDecl{}, vars: map[string]*varDecl{},
 		mutated: map[string]bool{}, scanned: map[string]bool{}}
-	table := []Target{{Pkg: synthPath, Type: "Finder", Nilable: true}}
+	table := []Target{{Pkg: synthPath, Type: "Finder", Nilable: true},
+		{Pkg: synthPath, Type: "Store", Opaque: true}, {Pkg: synthPath, Func: "Store.Load", Oracle: true}}
 	for _, d := range p.Syntax[0].Decls {
 		fd, ok := d.(*ast.FuncDecl)
 		if !ok {
@@ -490,6 +514,9 @@ func synthArg(t reflect.Type, r *Rng) reflect.Value {
 		}
 		return reflect.ValueOf(m)
 	}
+	if t.Kind() == reflect.Interface && t.Name() == "Store" {
+		return reflect.ValueOf(synth.MemStore{Prefix: Pick(r, synthStrings)})
+	}
 	if t.Kind() == reflect.Interface && t.Name() == "Getter" {
 		m := synth.MapGetter{}
 		for i := r.Intn(4); i > 0; i-- {
@@ -541,6 +568,9 @@ func selftestSynth(r *Rng) (*gen, *stFile) {
 		f.skipped = append(f.skipped, "the synthetic corpus does not load: "+err.Error())
 		return nil, f
 	}
+	g.opaquePrint = map[string]func(v reflect.Value) (string, string){
+		"synth.MemStore": func(v reflect.Value) (string, string) { return CStr(v.Interface().(synth.MemStore).Prefix), "string" },
+	}
 	// every Refused* function must be refused, every other one translated
 	status := map[string]*item{}
 	for _, it := range g.items {
@@ -556,6 +586,11 @@ func selftestSynth(r *Rng) (*gen, *stFile) {
 	for n, it := range status {
 		if strings.HasPrefix(n, "Refused") && it.status == "ok" {
 			f.add("false (* " + n + " should have been refused by the translator *)")
+		}
+		if _, listed := synth.Funcs[n]; !listed && it.status == "ok" && ast.IsExported(n) && !strings.ContainsAny(n, ".[") && !strings.HasPrefix(n, "Refused") {
+			if _, helper := synthHelpers[n]; !helper {
+				f.add("false (* synth." + n + " is translated but missing from synth.Funcs: it would go untested *)")
+			}
 		}
 	}
 	for _, n := range names {
@@ -598,6 +633,10 @@ func selftestSynth(r *Rng) (*gen, *stFile) {
 func (g *gen) emitReflectCase(f *stFile, label string, fi *fnInfo, fv reflect.Value, args []reflect.Value, lead []string, r *Rng) {
 	ft := fv.Type()
 	terms := append([]string{fi.name}, lead...)
+	if fi.effect {
+		terms = append(terms, "[]") // the initial world: an empty event log
+		synth.ResetEvents()
+	}
 	for i := range args {
 		var pi *paramInfo
 		if i < len(fi.params) {
@@ -642,16 +681,21 @@ func (g *gen) emitReflectCase(f *stFile, label string, fi *fnInfo, fv reflect.Va
 		return
 	}
 	var pats, checks []string
+	if fi.effect {
+		pats = append(pats, "rw")
+		ev := synth.Events()
+		checks = append(checks, g.eqCheck("rw", reflect.ValueOf(ev), reflect.TypeOf(ev)))
+	}
 	for i, o := range outs {
 		v := fmt.Sprintf("r%d", i)
 		pats = append(pats, v)
 		checks = append(checks, g.eqCheck(v, o, ft.Out(i)))
 	}
 	body := "let '(" + strings.Join(pats, ", ") + ") := res in " + strings.Join(checks, " && ")
-	if len(outs) == 1 {
-		body = "let r0 := res in " + checks[0]
+	if len(pats) == 1 {
+		body = "let " + pats[0] + " := res in " + checks[0]
 	}
-	if len(outs) == 0 {
+	if len(pats) == 0 {
 		body = "true"
 	}
 	if fi.partial {
